@@ -145,13 +145,15 @@ pub fn canon_call(c: &Value) -> Value {
 
 /// Builds a second level from `l` through one of the restore paths. With `lie`, the aggregate
 /// figures carried by the external input are falsified first (they must not be believed).
-pub fn restore_via(l: &PriceLevel, via: &str, lie: bool) -> Result<PriceLevel, String> {
+pub fn restore_via(l: &PriceLevel, via: &str, lie: bool, low: bool) -> Result<PriceLevel, String> {
+    // the falsified figures: overstated, or (low) understated
+    let (fv, fh, fc): (u64, u64, usize) = if low { (0, 0, 0) } else { (12345, 999, 77) };
     use std::str::FromStr;
     let mut snap = l.snapshot();
     if lie {
-        snap.visible_quantity = 12345;
-        snap.hidden_quantity = 999;
-        snap.order_count = 77;
+        snap.visible_quantity = fv;
+        snap.hidden_quantity = fh;
+        snap.order_count = fc;
     }
     let e = |x: PriceLevelError| x.to_string();
     match via {
@@ -175,18 +177,18 @@ pub fn restore_via(l: &PriceLevel, via: &str, lie: bool) -> Result<PriceLevel, S
         "data" => {
             let mut d = PriceLevelData::from(l);
             if lie {
-                d.visible_quantity = 12345;
-                d.hidden_quantity = 999;
-                d.order_count = 77;
+                d.visible_quantity = fv;
+                d.hidden_quantity = fh;
+                d.order_count = fc;
             }
             PriceLevel::try_from(d).map_err(e)
         }
         "data_json" => {
             let mut v: Value = serde_json::to_value(l).map_err(|x| x.to_string())?;
             if lie {
-                v["visible_quantity"] = json!(12345);
-                v["hidden_quantity"] = json!(999);
-                v["order_count"] = json!(77);
+                v["visible_quantity"] = json!(fv);
+                v["hidden_quantity"] = json!(fh);
+                v["order_count"] = json!(fc);
             }
             serde_json::from_value::<PriceLevel>(v).map_err(|x| x.to_string())
         }
@@ -194,7 +196,7 @@ pub fn restore_via(l: &PriceLevel, via: &str, lie: bool) -> Result<PriceLevel, S
             let mut t = l.to_string();
             if lie {
                 let (v, h, c) = (l.visible_quantity(), l.hidden_quantity(), l.order_count());
-                t = t.replacen(&format!("visible_quantity={v};hidden_quantity={h};order_count={c};"), "visible_quantity=12345;hidden_quantity=999;order_count=77;", 1);
+                t = t.replacen(&format!("visible_quantity={v};hidden_quantity={h};order_count={c};"), &format!("visible_quantity={fv};hidden_quantity={fh};order_count={fc};"), 1);
             }
             PriceLevel::from_str(&t).map_err(e)
         }
@@ -405,7 +407,8 @@ fn run_once(sched: &Arc<Sched>, sc: &Value, sc_ix: usize, run_ix: usize, micro: 
                 if c["op"] == "restore" || c["op"] == "fork" {
                     let via = c["via"].as_str().unwrap_or("snapshot").to_string();
                     let lie = c["lie"].as_bool().unwrap_or(false);
-                    let r = unregistered(|| std::panic::catch_unwind(std::panic::AssertUnwindSafe(|| restore_via(&level, &via, lie))));
+                    let low = c["low"].as_bool().unwrap_or(false);
+                    let r = unregistered(|| std::panic::catch_unwind(std::panic::AssertUnwindSafe(|| restore_via(&level, &via, lie, low))));
                     let kind = if c["op"] == "fork" { "fork" } else { "restore" };
                     let mut line = json!({"k": kind, "t": w + 1, "via": via, "lie": lie, "st": unregistered(|| state_json(&level, Some(&gen), true))});
                     match r {
